@@ -4,6 +4,7 @@ from __future__ import annotations
 
 import argscorr
 import common
+import callshapes
 import progspace
 
 LEAN_TARGETS = ["CM.Props.Lift", "CM.Props.C16"]
@@ -49,6 +50,6 @@ def search(ctx):
             if rec["failed"] or rec["failed2"]:
                 continue
             if rec["after2"] != rec["after"] or rec["changes2"] is not None:
-                ctx.fail({"kind": "second-run-changes", "codemod": cid, "wrote": rec["after2"] != rec["after"]},
+                ctx.fail({"kind": "second-run-changes", "codemod": cid, "wrote": rec["after2"] != rec["after"], "shape": callshapes.shape_class(name)},
                          f"{cid}: a second run on its own output {'modifies the file' if rec['after2'] != rec['after'] else 'reports a changeset'} (variant {name})",
                          {"codemod": cid, "program": name, "before": rec["before"], "after": rec["after"], "after2": rec["after2"], "changes2": rec["changes2"]})
